@@ -4,6 +4,7 @@ that were given the property statements and asked to keep all of them true) are
 applied to /repo one at a time; every check's quick tier must stay silent.
 
   tools/refactors.py <dir-with-<n>/patch.diff> <id-prefix> [props...]
+  tools/refactors.py /verif/refactors RECHECK [props...]     re-run the kept ones after the checks changed
 
 Each patch is first checked in place: it must apply, build with every feature
 subset + verif-hooks, and keep the existing suite green; then all quick checks run
@@ -37,7 +38,7 @@ def main():
         patch = os.path.join(src, n, "patch.diff")
         if not os.path.exists(patch):
             continue
-        rid = f"{prefix}-{n}"
+        rid = n if prefix == "RECHECK" else f"{prefix}-{n}"
         scratch = f"/tmp/ecli-refactor-scratch-{rid}"
         env = dict(os.environ, VERIF_EVIDENCE_DIR=os.path.join(scratch, "evidence"), VERIF_REPLAY_DIR=os.path.join(scratch, "replays"))
         meta = dict(id=rid, source=f"sub-agent given all claimed property statements, asked for behaviour-preserving changes ({src})")
@@ -76,9 +77,10 @@ def main():
             shutil.rmtree(scratch, ignore_errors=True)
         dst = os.path.join(ROOT, "refactors", rid)
         os.makedirs(dst, exist_ok=True)
-        shutil.copy(patch, os.path.join(dst, "patch.diff"))
+        if os.path.abspath(patch) != os.path.abspath(os.path.join(dst, "patch.diff")):
+            shutil.copy(patch, os.path.join(dst, "patch.diff"))
         notes = os.path.join(src, n, "notes.md")
-        if os.path.exists(notes):
+        if os.path.exists(notes) and os.path.abspath(notes) != os.path.abspath(os.path.join(dst, "notes.md")):
             shutil.copy(notes, os.path.join(dst, "notes.md"))
         json.dump(meta, open(os.path.join(dst, "meta.json"), "w"), indent=1)
     return rc
